@@ -199,7 +199,8 @@ def run_case(case, ctx):
     pat = patterns.make(rng, case["pattern"])
     k = int(rng.integers(1, 4))
     built = planted.build(rng, pat, case["cell"], atol, n_copies=k, crossings=[int(x) for x in rng.integers(0, 4, k)],
-                          poses=[planted.POSES[int(x)] for x in rng.integers(0, len(planted.POSES), k)], n_bystanders=int(rng.integers(2, 8)), n_distractors=0, min_sep=1.35)
+                          poses=[planted.POSES[int(x)] for x in rng.integers(0, len(planted.POSES), k)], n_bystanders=int(rng.integers(2, 8)) if case["s"] % 3 else int(rng.integers(1, 4)),
+                          n_distractors=0, min_sep=1.35)
     S = built["atoms"]
     n = len(S)
     S.atom_type_labels = ["S_%s" % e for e in S.atom_type_elements]
@@ -208,7 +209,12 @@ def run_case(case, ctx):
         S.pair_coeffs = np.array(["S_pair_%s 0.1 3.%d # S%s" % (e, t, e) for t, e in enumerate(S.atom_type_elements)])
     # per kind: table on the structure?
     s_tables = {kd: bool(rng.integers(2)) for kd in atomsgen.KNAMES}
-    add_terms(rng, S, n, built["planted"], "S", s_tables)
+    # one case in three: a densely connected structure (many terms among few atoms), so that index coincidences between
+    # pattern terms and unrelated structure terms actually occur
+    dense = case["s"] % 3 == 0
+    add_terms(rng, S, n, built["planted"], "S", s_tables, max_each=14 if dense else 4)
+    if dense:
+        st.count("densely_connected_structures")
     rep = replcase.make_replacement(rng, pat, case["repl"])
     if len(rep["elements"]) == 0:
         return
